@@ -79,6 +79,66 @@ T = {
     needs="two or more quadratic factors (p >= 4)", caught_by={"C20": "theorem quads2poly_expands about the regenerated definition fails; oracle gives concrete coefficients"}),
 }
 
+# ---- round 2: sub-agents were told what round 1 had produced for the property and asked for a different mechanism ----
+T.update({
+ "C01-nan-to-num-guard": dict(property="C01", what="isfinite guard replaced by nan_to_num: non-finite log probabilities become -1.8e308 instead of -inf",
+    needs="NaN / inf in y or a covariance that is not positive definite", caught_by={"C01": "guard oracle on non-finite data (concrete input)"}),
+ "C02-fastpath-mean-noise-diagonal": dict(property="C02", what="fast-path conditional mean uses noise.diagonal() * alpha instead of noise @ alpha",
+    needs="non-diagonal (banded / dense) TRAINING noise, X_test absent, no prediction kernel", caught_by={"C02": "oracle + correspondence on the option matrix (banded training noise x absent)"},
+    not_caught_by={"C11": "the noise model itself is unchanged; C11 rightly stays quiet"}),
+ "C03-banded-indices-clip": dict(property="C03", what="Banded._indices vectorised with clipping: padding slots are scattered into the last row / column",
+    needs="banded noise with non-zero values in the documented ignored slots, dense `+` view", caught_by={"C03": "dense vs quasiseparable solver", "C11": "`+` view vs documented matrix with garbage in the ignored slots"}),
+ "C04-uppertri-transpose-aT": dict(property="C04", what="UpperTriQSM.transpose also transposes the transition matrices",
+    needs="non-symmetric transition matrices, order >= 2, n >= 3, transposing / right-multiplying an UpperTriQSM", caught_by={"C04": "exact correspondence + oracle", "C06": "upper inverse (= transpose, inverse, transpose)"}),
+ "C05-theta-eta-padding": dict(property="C05", what="zero-padding of theta keyed on eta in qsm_mul",
+    needs="a product with a strictly upper factor and a factor carrying diagonal + upper part", caught_by={"C05": "exact correspondence over the 49 kind pairs (wrong values / malformed orders)"}),
+ "C06-symm-inv-forward": dict(property="C06", what="SymmQSM.inv propagates a^T f a instead of a f a^T in the forward sweep",
+    needs="symmetric matrix with non-symmetric transition matrices, n >= 3", caught_by={"C06": "oracle A inv(A) = I and correspondence"}),
+ "C07-covariance-path-jitter": dict(property="C07", what="QuasisepSolver factors covariance + sqrt(eps) I when a pre-computed covariance is passed",
+    needs="a solver built with covariance= (e.g. conditioning at the training inputs), visible at 1e-8 relative or grossly in small units",
+    caught_by={"C07": "solver-level check L L^T = solver.matrix on the kernel+noise / covariance= / conditioning paths at amplitudes 1 and 1e-5"},
+    missed_initially="C07 (only called SymmQSM.cholesky directly), C13, C02 (1e-8 effect below their tolerances)",
+    strengthening="C07 now checks the factor the solver actually holds, its normalisation and the L / L^T solves on every construction path, relative 1e-10"),
+ "C08-general-qsm-h2-shifted": dict(property="C08", what="to_general_qsm takes the observation model of the PREVIOUS training point for the right generators",
+    needs="coordinate-dependent observation model (wrapper over structured coordinates), rectangular path", caught_by={"C08": "exact correspondence on the synthetic structured-coordinate kernel over weak orderings"}),
+ "C09-polynomial-diag": dict(property="C09", what="new evaluate_diag override of Polynomial divides by scale instead of scale^2",
+    needs="Polynomial with scale != 1 and the one-argument call kernel(X)", caught_by={"C09": "translator rejects the changed method surface (fail closed); oracle diag kernel(X) vs diag kernel(X, X) gives the input"},
+    missed_initially="C09: diagonals were only compared for the stationary profiles, and a NEW override is invisible to a translator of a fixed method list",
+    strengthening="diagonal and symmetry oracle for every kernel class with non-default parameters; the translator now checks the semantic method surface of every kernel class"),
+ "C10-scale-fold": dict(property="C10", what="a * (b * k) folded into one Scale node reading the leaf's length scale instead of the inner amplitude",
+    needs="a quasiseparable kernel scaled twice in direct succession", caught_by={"C10": "random expression trees vs recursive numpy evaluation"}),
+ "C11-banded-matmul-roll": dict(property="C11", what="Banded.__matmul__ rewritten band by band with jnp.roll: wrapped rows read the ignored slots",
+    needs="non-zero values in the ignored off_diags slots", caught_by={"C11": "exhaustive (N, J) correspondence with garbage in the ignored slots"}),
+ "C12-dot-triangular-size-fastpath": dict(property="C12", what="DirectSolver.dot_triangular flattens any input whose SIZE equals N",
+    needs="unit-length sample axes, e.g. sample(key, (1,)) or an (N, 1) matrix", caught_by={"C12": "shape contract on shapes (1,), (1,1) and (N,1) operands"},
+    missed_initially="(pre-emptively strengthened before the run) shapes were None, (), (3,), (2,3)", strengthening="unit-length axes added to the sample shapes and to dot / solve operands"),
+ "C13-qsm-branch-noise-early": dict(property="C13", what="same mechanism as C02-qsm-branch-noise-order, produced independently for C13",
+    needs="quasisep solver, conditioning at the process's own inputs with a non-default per-step noise",
+    caught_by={"C13": "own-inputs step: stored covariance / child kernel / sequential = joint", "C02": "option matrix"},
+    missed_initially="C13 conditioned at its own inputs only with the default jitter", strengthening="own-inputs step with a per-step noise level, then a second step, against the dense oracle"),
+ "C14-banded-lru-cache-tracer": dict(property="C14", what="Banded.to_qsm caches its constant generators with lru_cache: tracers leak out of the first trace",
+    needs="first use of a given (N, J) under a trace, then any eager or differently traced use", caught_by={"C14": "order-sensitive runs: jit first on fresh shapes, then eager, then another jit"},
+    missed_initially="C14 computed the eager reference before the transformed variants", strengthening="trace-first runs for every noise model and both solvers"),
+ "C15-general-qsm-tie-stopgrad": dict(property="C15", what="to_general_qsm cuts the dependence of the boundary transition on the coordinates at exact ties",
+    needs="derivative of the predictive mean with respect to INPUT COORDINATES at a test point equal to a training point",
+    caught_by={"C15": "jacfwd / grad of the predictive mean w.r.t. test coordinates (two equal to training inputs) vs finite differences, C^1 kernels"},
+    missed_initially="C15 only checked that coordinate derivatives are finite at coincident points (the literal second sentence of the property)",
+    strengthening="where the true coordinate derivative exists (kernels that are C^1 at zero lag) it is now compared with finite differences of the numpy oracle, also at ties; "
+                  "no value is demanded where the kernel is not differentiable (Exp at zero lag)"),
+ "C16-banded-matmul-dense": dict(property="C16", what="Banded.__matmul__ builds N x N band matrices", needs="banded training noise, predict / condition at the training inputs",
+    caught_by={"C16": "theorem table_ok fails on the regenerated shape table (N x N intermediates in the banded variants)"}),
+ "C17-xtest-all-leaves": dict(property="C17", what="X_test validation raises only when EVERY leaf mismatches",
+    needs="structured inputs with several leaves and a partial mismatch", caught_by={"C17": "exception table rows for partial leaf mismatches"},
+    missed_initially="C17's table had single-leaf inputs only", strengthening="six rows with two-leaf inputs (rank / trailing size, either leaf, condition and predict)"),
+ "C18-prod-helper-kron-order": dict(property="C18", what="observation model of a Product uses jnp.kron ordering, inconsistent with F, P, A",
+    needs="a product with a factor whose observation vector has several non-zero entries (Celerite, Sum, CARMA)",
+    caught_by={"C10": "product value vs k1 * k2"}, not_caught_by={"C18": "every clause of C18 (identity, semigroup, expm, h P A h = evaluate) still holds for the changed model; the broken statement (value of a product = product of values) is C10's"}),
+ "C19-subspace-sorted-axes": dict(property="C19", what="Subspace sorts and de-duplicates the axes", needs="unsorted or repeated axes with a non-permutation-invariant base kernel",
+    caught_by={"C19": "theorem on the regenerated definition + oracle"}),
+ "C20-acvf-even-ma-terms": dict(property="C20", what="carma_acvf replaces (-r)^k by -(r^k)", needs="moving-average order q >= 2 with a non-zero even coefficient",
+    caught_by={"C20": "companion-form oracle (concrete coefficients)"}),
+})
+
 
 def main():
     root = Path("/verif/seeded")
